@@ -7,6 +7,7 @@ import (
 	"github.com/golang/geo/s1"
 	"github.com/golang/geo/s2"
 
+	"verifsim/core"
 	"verifsim/gen"
 )
 
@@ -572,6 +573,63 @@ func drawEQOpts(g *gen.G) EQOpts {
 	return o
 }
 
+// indexKinds: the query families on a bare ShapeIndex with their base weights. A per-run mask
+// (swarm testing: the workload mix varies from run to run) switches families off, so that some
+// runs hammer one family on one long-lived query object instead of spreading thinly.
+var indexKinds = []struct{ kind, weight int }{
+	{QContainsPoint, 2}, {QContainingShapes, 1}, {QShapeContains, 1}, {QCrossings, 1}, {QCrossingsMap, 1},
+	{QFindEdges, 3}, {QDistance, 1}, {QIsDistLess, 1}, {QIsConsDist, 1}, {QWalk, 1}, {QRegionBound, 1},
+	{QBuild, 1}, {QLocate, 1}, {QIsFreshNumEdges, 1}, {QMisc, 1},
+}
+
+// kindMask: bit i set = indexKinds[i] disabled for this run. 0 = everything enabled.
+var kindMask uint32
+
+// drawKindMask draws the per-run mix (0, the simplest choice, enables everything).
+func drawKindMask(t *core.Tape) {
+	kindMask = 0
+	if t.Chance(600) {
+		kindMask = t.Uint(1 << uint(len(indexKinds)))
+		if kindMask == 1<<uint(len(indexKinds))-1 {
+			kindMask = 0
+		}
+	}
+}
+
+func pickIndexKind(t *core.Tape) int {
+	total := 0
+	for i, k := range indexKinds {
+		if kindMask&(1<<uint(i)) == 0 {
+			total += k.weight
+		}
+	}
+	x := int(t.Uint(uint32(total)))
+	for i, k := range indexKinds {
+		if kindMask&(1<<uint(i)) != 0 {
+			continue
+		}
+		if x < k.weight {
+			return k.kind
+		}
+		x -= k.weight
+	}
+	return QContainsPoint
+}
+
+// drawQueryOn draws the arguments of a query on one given index object (the caller sets the kind).
+func drawQueryOn(g *gen.G, descs []*ObjDesc, obj int) Op {
+	t := g.T
+	op := Op{Reuse: -1, Obj: obj}
+	d := descs[obj]
+	op.P = probePoint(g, d)
+	op.Q = probePoint(g, d)
+	op.Cell = probeCell(g, d)
+	op.Model = s2.VertexModel(t.Uint(3))
+	op.ShapeID = int(t.Uint(uint32(imax(len(d.Shapes), 1))))
+	op.Cross = s2.CrossingType(t.Uint(2))
+	return op
+}
+
 // drawQuery draws one read-only query against the world description.
 func drawQuery(g *gen.G, descs []*ObjDesc, allowRel bool) Op {
 	t := g.T
@@ -619,38 +677,7 @@ func drawQuery(g *gen.G, descs []*ObjDesc, allowRel bool) Op {
 		nsh := len(d.Shapes)
 		op.ShapeID = int(t.Uint(uint32(imax(nsh, 1))))
 		op.Cross = s2.CrossingType(t.Uint(2))
-		k := t.Uint(16)
-		switch {
-		case k < 2:
-			op.Kind = QContainsPoint
-		case k < 3:
-			op.Kind = QContainingShapes
-		case k < 4:
-			op.Kind = QShapeContains
-		case k < 5:
-			op.Kind = QCrossings
-		case k < 6:
-			op.Kind = QCrossingsMap
-		case k < 9:
-			op.Kind = QFindEdges
-		case k < 10:
-			op.Kind = QDistance
-		case k < 11:
-			op.Kind = QIsDistLess
-		case k < 12:
-			op.Kind = QWalk
-		case k < 13:
-			op.Kind = QRegionBound
-		case k < 14:
-			op.Kind = QBuild
-		case k < 15:
-			op.Kind = QLocate
-		default:
-			op.Kind = QIsFreshNumEdges
-			if t.Chance(500) {
-				op.Kind = QMisc
-			}
-		}
+		op.Kind = pickIndexKind(t)
 		if op.Kind >= QFindEdges && op.Kind <= QIsConsDist {
 			op.EQ = drawEQOpts(g)
 			op.TK = int(t.Uint(NumTKinds))
